@@ -65,9 +65,23 @@ UNITS = [
 """),
 ]
 
+PKR = "crates/core/src/blob/packer.rs"
+UNITS += [
+    Unit(name="packer_add_raw", file=PKR, anchor="fn add_raw(\n        &self,", within="impl<BE: DecryptWriteBackend> Packer<BE> {", ret_name="r",
+         wrap_open="impl<BE: DecryptWriteBackend> Packer<BE> {", wrap_close="}",
+         functions=["blob::packer::Packer::add_raw"],
+         rewrites=[
+             Rw("self.indexer.read().unwrap()", "self.indexer.vread()", why="RwLock read guard -> shared reference"),
+             Rw(r"self\.raw_packer\s*\.write\(\)\s*\.unwrap\(\)\s*\.add_raw\(data, id, data_len, uncompressed_length\)",
+                "self.raw_packer.vadd_raw(data, id, data_len, uncompressed_length, Ghost(known_set(self.indexer.inner)), Ghost(self.blob_type))", regex=True,
+                why="RwLock write guard + RawPacker::add_raw -> effectful stub whose PRECONDITION is 'not already indexed under this packer's type'"),
+         ],
+         contract="\n    // obligation (implicit, precondition of vadd_raw): only blobs the indexer does not have under (self.blob_type, id) are packed again\n"),
+]
+
 KANI = []
 META = {"not_covered": [
-    "skip-upload decisions in archiver/file_archiver.rs backup_reader and tree_archiver.rs backup_tree (index.has_data / has_tree)",
+    "skip-upload decision in archiver/file_archiver.rs backup_reader (iterator adapters); the one in tree_archiver.rs backup_tree is a unit of C01 (ta_backup_tree)",
     "the three 'already indexed' filters inside the Packer::new thread pipeline (they call Indexer::has with the packer's own type; the pipeline itself is not under contract)",
     "shift-resilience of chunk boundaries (follows from C06 at the chunk level only)",
 ]}
